@@ -39,6 +39,10 @@ LINES = {
     "convbad": dict(kind="convbad", sym=""),
     "cond": dict(kind="cond", sym=""),
     "nest": dict(kind="nest", sym=""),
+    # expressions that raise inside the scope their solver opened
+    "condbad": dict(kind="condbad", sym=""),
+    "nestbad": dict(kind="nestbad", sym=""),
+    "boolbad": dict(kind="boolbad", sym=""),
     # lines that USE the custom unit [len] defined earlier in the same text
     "useu": dict(kind="useu", sym=""),
     "nestu": dict(kind="nestu", sym=""),
@@ -199,6 +203,12 @@ def render_dip(text):
             lines += [f'@case ("1 m == 100 cm")', f"  k{j} int = 1", "@end"]
         elif ln["kind"] == "nest":
             lines.append(f'e{j} float = ("2 m + 1 m") m')
+        elif ln["kind"] == "condbad":
+            lines += [f'@case ("1 m == 1 s")', f"  k{j} int = 1", "@end"]
+        elif ln["kind"] == "nestbad":
+            lines.append(f'e{j} float = ("2 m + 1 s") m')
+        elif ln["kind"] == "boolbad":
+            lines.append(f'b{j} bool = ("1 m > 1 s")')
         elif ln["kind"] == "useu":
             lines += [f"u{j} float = 3 [len]", f"u{j} = 1 m"]
         elif ln["kind"] == "nestu":
@@ -515,18 +525,20 @@ def run(replay=None):
                                                                                            ("INT",), ("X", "INT"), ("T2", "INT"), ("X", "Y", "INT")]
         tx = dip_texts(2, ["len", "c", "use", "bad", "conv", "convbad", "cond", "nest"]) + [("len", "c", "use"), ("len", "len", "use"), ("c", "len", "bad"), ("len", "use", "bad"), ("len", "bad", "use")] + \
              [("len", "wid", "c", "use"), ("len", "c", "wid", "bad"), ("len", "c", "convbad"), ("len", "wid", "nest"), ("len", "cond", "convbad"), ("len", "conv", "c", "use")]
-        tx += [("len", "useu"), ("len", "nestu"), ("len", "condu"), ("len", "boolu"), ("useu",), ("nestu",), ("condu",), ("wid", "nestu"),
+        tx += [("len", "condbad"), ("len", "nestbad"), ("len", "boolbad"), ("condbad",), ("nestbad",), ("boolbad",), ("len", "wid", "condbad"), ("len", "use", "boolbad"),
+               ("len", "useu"), ("len", "nestu"), ("len", "condu"), ("len", "boolu"), ("useu",), ("nestu",), ("condu",), ("wid", "nestu"),
                ("len", "wid", "nestu"), ("len", "condu", "nestu"), ("len", "nestu", "boolu", "useu"), ("len", "bad", "nestu"), ("len", "useu", "convbad")]
         tx = sorted(set(tx))
         ul3 = [("X",), ("Y",), ("X", "Y"), ("Y", "M"), ("X", "OL"), ("T",), ("T2",), ("TB",), ("T2", "M"), ("XK", "Y"), ("Y", "BAD"), ("X", "INT")]
-        tx3 = [("len", "use"), ("len", "c", "use"), ("len", "bad"), ("c", "len", "use"), ("len", "convbad"), ("len", "nest"), ("len", "nestu"), ("len", "condu")]
+        tx3 = [("len", "use"), ("len", "c", "use"), ("len", "bad"), ("c", "len", "use"), ("len", "convbad"), ("len", "nest"), ("len", "nestu"), ("len", "condu"), ("len", "condbad"), ("len", "boolbad")]
     else:
         # (all 3-unit lists over 8 descriptors x all texts of 4 lines squared exhausts memory: 2.6 M behaviours)
         ul = unit_lists(2, ["X", "Y", "M", "OL", "T", "T2", "TB", "BAD", "BADP", "XK"]) + unit_lists(3, ["X", "M", "T", "OL"]) + unit_lists(2, ["X", "T2", "INT"])
         ul = sorted(set(ul))
         tx = sorted(set(dip_texts(2, ["len", "wid", "c", "use", "bad", "conv", "convbad", "cond", "nest"]) + dip_texts(3, ["len", "c", "use", "bad"])
                         + [("len", "wid", "c", "use"), ("len", "c", "wid", "bad"), ("len", "len", "c", "use"), ("len", "use", "use", "bad")] + dip_texts(2, ["len", "wid", "useu", "nestu", "condu", "boolu"])
-                        + [("len",) + x for x in dip_texts(2, ["useu", "nestu", "condu", "boolu", "bad", "c"])]))
+                        + [("len",) + x for x in dip_texts(2, ["useu", "nestu", "condu", "boolu", "bad", "c"])]
+                        + dip_texts(2, ["len", "condbad", "nestbad", "boolbad", "use"])))
         ul3 = unit_lists(1, ["X", "Y", "M", "OL", "T", "T2", "TB", "BAD", "INT"]) + unit_lists(2, ["X", "M", "T"]) + [("X", "OL"), ("T2", "M"), ("XK", "Y"), ("Y", "BAD"), ("X", "INT")]
         tx3 = dip_texts(1, ["len", "c", "use", "convbad", "nest"]) + [("len", "use"), ("len", "c"), ("c", "len"), ("len", "len")] + [("len", "convbad"), ("len", "nest"), ("len", "c", "use"), ("c", "len", "bad"), ("len", "nestu"), ("len", "condu"), ("len", "boolu"), ("nestu",)]
     # A: every unit list / text, behaviours of 2 calls; B: a core subset, behaviours of 3 calls (deeper nesting)
